@@ -242,3 +242,132 @@ def tok_6(ctx, rep):
                    'the error token is not the single character at the scan position')
     if not found:
         raise AnalysisError('tokenize_lines: fallback (ERRORTOKEN) branch not found')
+
+
+# ---------------------------------------------------------------------------
+# TOK-3 : prefix-obligation typestate
+# ---------------------------------------------------------------------------
+E, P, C = 'EMPTY', 'PENDING', 'CONSUMED'
+
+
+def _acc_names_in(e, accs):
+    return {n.id for n in ast.walk(e) if isinstance(n, ast.Name) and n.id in accs}
+
+
+def tok_3(ctx, rep, accumulators):
+    rep.rule('TOK-3', 'prefix accumulators of tokenize_lines are never overwritten while they hold pending text, never '
+                      'emitted twice, and not left pending at the exit (typestate EMPTY / PENDING / CONSUMED, '
+                      'path-sensitive on the truthiness of the continued-string and match variables)')
+    from ..paths import FactFlow, path_text
+    f = ctx.prog.func(TOK, 'tokenize_lines')
+    accs = sorted(accumulators.get(f.qual, set()))
+    if len(accs) < 2:
+        raise AnalysisError('TOK-3: prefix accumulators of tokenize_lines not found (%s)' % accs)
+    cfg = ctx.cfg(f)
+    flow = FactFlow(cfg)
+    # axiom: a slice of the current line taken from the start of a matched token is non-empty
+    axiom_truthy = set()
+    for n in cfg.nodes:
+        if n.kind == 'stmt' and isinstance(n.ast, ast.Assign) and len(n.ast.targets) == 1 \
+                and isinstance(n.ast.targets[0], ast.Name) and isinstance(n.ast.value, ast.Subscript) \
+                and isinstance(n.ast.value.slice, ast.Slice) and n.ast.value.slice.upper is None \
+                and n.ast.targets[0].id in flow.fact_vars:
+            axiom_truthy.add(n)
+    rep.assume('TOK-3 axiom: `<var> = line[start:]` after a token match is a non-empty string (%d site(s))' % len(axiom_truthy))
+
+    def step_state(node, st):
+        """-> (new state tuple, problem or None)"""
+        st = dict(zip(accs, st))
+        problem = None
+        a = node.ast
+        exprs_uses = []
+        if node.kind == 'stmt' and isinstance(a, (ast.Assign, ast.AugAssign)):
+            targets = a.targets if isinstance(a, ast.Assign) else [a.target]
+            tnames = []
+            for t in targets:
+                for x in ([t] if not isinstance(t, (ast.Tuple, ast.List)) else t.elts):
+                    if isinstance(x, ast.Name) and x.id in accs:
+                        tnames.append(x.id)
+            used = _acc_names_in(a.value, accs)
+            if isinstance(a, ast.AugAssign) and isinstance(a.target, ast.Name) and a.target.id in accs:
+                used.add(a.target.id)
+            # token constructions inside the value (e.g. token = PythonToken(..., prefix=acc + x)) consume
+            if tnames:
+                for u in used:
+                    if u not in tnames and st[u] == C:
+                        problem = 'accumulator %s is transferred after it was already emitted' % u
+                for t in tnames:
+                    if t not in used and st[t] == P and not (isinstance(a.value, ast.Constant) and a.value.value == '' and False):
+                        problem = 'accumulator %s is overwritten while it holds pending text' % t
+                for u in used:
+                    if u not in tnames:
+                        st[u] = C
+                for t in tnames:
+                    if isinstance(a.value, ast.Constant) and a.value.value == '':
+                        st[t] = E
+                    else:
+                        st[t] = P
+                return tuple(st[x] for x in accs), problem
+        # consumption: accumulator flows into the prefix field of a token construction
+        for e in node_exprs(node):
+            for c in ast.walk(e):
+                if isinstance(c, ast.Call) and isinstance(c.func, ast.Name) and c.func.id == 'PythonToken':
+                    pre = c.args[3] if len(c.args) > 3 else None
+                    for kw in c.keywords:
+                        if kw.arg == 'prefix':
+                            pre = kw.value
+                    if pre is not None:
+                        for u in _acc_names_in(pre, accs):
+                            if st[u] == C:
+                                problem = 'accumulator %s is emitted a second time' % u
+                            st[u] = C
+                elif isinstance(c, ast.Call) and isinstance(c.func, ast.Name) and c.func.id != 'PythonToken':
+                    # passed to a helper that emits tokens with it (generator helper) -> consumed
+                    if isinstance(getattr(c, '_parent', None), ast.YieldFrom):
+                        for arg in c.args:
+                            for u in _acc_names_in(arg, accs):
+                                if st[u] == C:
+                                    problem = 'accumulator %s is emitted a second time' % u
+                                st[u] = C
+        return tuple(st[x] for x in accs), problem
+
+    start = (cfg.entry, frozenset(), tuple(E for _ in accs))
+    seen = {start: None}
+    todo = [start]
+    problems = {}
+    while todo:
+        state = todo.pop()
+        node, facts, st = state
+        st2, problem = step_state(node, st)
+        if problem and (node.id, problem) not in problems:
+            problems[(node.id, problem)] = (state, node)
+            continue
+        if node is cfg.exit:
+            pend = [a for a, v in zip(accs, st) if v == P]
+            if pend and ('exit', tuple(pend)) not in problems:
+                problems[('exit', tuple(pend))] = (state, node)
+            continue
+        for s2, lab, f2 in flow.successors(node, facts):
+            if node in axiom_truthy:
+                f2 = frozenset(x for x in f2 if x[0] != node.ast.targets[0].id) | {(node.ast.targets[0].id, True)}
+            nxt = (s2, f2, st2)
+            if nxt not in seen:
+                seen[nxt] = state
+                todo.append(nxt)
+        if len(seen) > 400000:
+            raise AnalysisError('TOK-3: state space exceeded')
+
+    def trail(state):
+        out = []
+        while state is not None:
+            out.append(state[0])
+            state = seen.get(state)
+        return path_text(list(reversed(out)), limit=7)
+    rep.stat('tok3_states', len(seen))
+    if not problems:
+        rep.ob('TOK-3', TOK, f.qual, 'accumulators %s: no overwrite of pending text, no double emission, none pending at exit' % ', '.join(accs), True)
+    for key, (state, node) in sorted(problems.items(), key=lambda kv: str(kv[0])):
+        what = key[1] if key[0] != 'exit' else 'accumulator(s) %s still hold pending text at the exit' % ', '.join(key[1])
+        rep.ob('TOK-3', TOK, f.qual, '%s @ %s' % (what, head(node.stmt) if node.stmt is not None else 'exit'), False,
+               'text taken from the input can be lost or duplicated: %s; path: %s' % (what, ' -> '.join(trail(state))),
+               witness=trail(state))
